@@ -269,6 +269,8 @@ def handle (toks : List String) : String :=
     | none => "bad-request"
   | "imdseq" :: _ => (C08Img.handle toks).getD "bad-request"
   | "td0seq" :: _ => (C08Img.handle toks).getD "bad-request"
+  | "imdseqx" :: _ => (C08Img.handle toks).getD "bad-request"
+  | "td0seqx" :: _ => (C08Img.handle toks).getD "bad-request"
   | ["wozchunks", h] =>
     match ofHexFast h with
     | some bs => C09Woz.showWalk (C09Woz.walk bs)
